@@ -106,14 +106,15 @@ Definition is_revision_format (s : bytes) : bool :=
   | _ => false
   end.
 
-(** ParseChainID: revision number, 0 when not in revision format; the Go code panics when the regexp accepts
-    a number that strconv.ParseUint rejects (more than 64 bits). *)
+(** ParseChainID: revision number, 0 when not in revision format, and (since fix d71d2e9; it used to panic) also
+    0 when the regexp accepts a number that strconv.ParseUint rejects (more than 64 bits).
+    [PRevPanic] is kept for the callers' Panic branches, which are now unreachable. *)
 Inductive ParseRev := PRev (n : N) | PRevPanic.
 Definition parse_chain_id (s : bytes) : ParseRev :=
   if is_revision_format s then
     match List.rev (split_on dash s) with
-    | last :: _ => match parse_uint64 last with Some n => PRev n | None => PRevPanic end
-    | [] => PRevPanic
+    | last :: _ => match parse_uint64 last with Some n => PRev n | None => PRev 0 end
+    | [] => PRev 0
     end
   else PRev 0.
 
